@@ -1,50 +1,29 @@
 package main
 
 import (
-	"encoding/json"
 	"fmt"
-	"math/rand"
-	"os"
+	"path/filepath"
+	"time"
 
 	. "verifharness/lib"
 )
 
 func main() {
-	run := NewRun("SMOKE", nil)
-	run.Prepare()
-	r := OneFile("smoke", "smoke.v1", &File{
-		Enums: []*Enum{E("Status", "STATUS_UNSPECIFIED", "STATUS_ACTIVE")},
-		Messages: []*Message{
-			M("GetReq", F("user_id", 1, "string"), F("page", 2, "int32", Query("page", false))),
-			M("User", F("id", 1, "string"), F("big", 2, "int64", I64("NUMBER")), F("st", 3, "", EnumT("smoke.v1.Status")),
-				F("tags", 5, "string", MapOf("string"))),
-		},
-		Services: []*Service{Svc("Users", "/api/v1",
-			RPC("GetUser", "smoke.v1.GetReq", "smoke.v1.User", "GET", "/users/{user_id}"),
-			RPC("MakeUser", "smoke.v1.User", "smoke.v1.User", "", "/make"))},
-	})
-	s := NewSession(run, []*Request{r})
-	s.BuildRuntime(true)
-	for d, v := range s.Verdict {
-		fmt.Println(d, v.Build, v.Vet, v.Output)
+	bin, _, err := BuildPlugins()
+	if err != nil {
+		panic(err)
 	}
-	g := s.Gens[0]
-	vg := &ValueGen{Rng: rand.New(rand.NewSource(1))}
-	req := vg.Random(g.Built.MessageDesc("smoke.v1.GetReq"), 1.0)
-	resp := vg.Random(g.Built.MessageDesc("smoke.v1.User"), 1.0)
-	j, c := MsgCanon(req)
-	fmt.Println(j, c)
-	rh := WireHex(resp)
-	sc := map[string]any{"id": "1", "kind": "call", "pkg": "smoke", "service": "Users", "method": "GetUser", "req": WireHex(req), "script": map[string]any{"resp": rh}}
-	sc2 := map[string]any{"id": "2", "kind": "call", "pkg": "smoke", "service": "Users", "method": "MakeUser", "req": rh, "script": map[string]any{"resp": rh}, "opts": map[string]any{"ContentType": "application/x-protobuf"}}
-	obs, err := RunScenarios(s.Runner, []any{sc, sc2}, 1)
-	fmt.Println(err)
-	for _, o := range obs {
-		var v any
-		json.Unmarshal(o, &v)
-		b, _ := json.MarshalIndent(v, "", " ")
-		os.Stdout.Write(b)
-		fmt.Println()
+	pkg := "rec.v1"
+	f := &File{Messages: []*Message{M("Node", F("v", 1, "string"), F("next", 2, "", Msg(pkg+".Node"))), M("Req", F("id", 1, "string"))}}
+	f.Services = []*Service{Svc("S", "/s", RPC("Get", pkg+".Req", pkg+".Node", "POST", "/g"))}
+	r := OneFile("rec", pkg, f)
+	b, err := BuildDescriptors(r)
+	if err != nil {
+		panic(err)
 	}
-	run.Cleanup()
+	for _, mem := range []int{1024, 4096} {
+		t := time.Now()
+		res := RunPlugin(filepath.Join(bin, "protoc-gen-go-http"), "go-http", MakeCGR(b.All, ToGenerate(r), "paths=source_relative,generate_mock=true"), 15*time.Second, mem)
+		fmt.Println(mem, res.Exit, res.Error, time.Since(t), res.MaxRSSKB, len(res.Stderr), res.Stderr[:min(300, len(res.Stderr))])
+	}
 }
